@@ -238,9 +238,11 @@ def body_assign(ctx, case):
     from pero_ocr.layout_engines import layout_helpers as H
     regs = [RegionLayout("r%03d" % i, np.asarray(r["poly"], dtype=np.float64)) for i, r in enumerate(case["regions"])]
     dets = []
-    for l in case["lines"]:
+    for li_, l in enumerate(case["lines"]):
         b = np.asarray(l["baseline"], dtype=np.float64)
-        h = list(l["heights"])
+        if li_ % 3 == 2 and np.array_equal(b, np.round(b)):
+            b = b.astype(np.int64)          # detectors hand over integer pixel positions times the down-sampling
+        h = list(l["heights"]) if li_ % 2 else np.asarray(l["heights"], dtype=np.float64)
         t = H.baseline_to_textline(b, h)
         dets.append(dict(baseline=l["baseline"], heights=h, outline=t, b=b))
     desc = lambda: "case=%r" % (case,)
@@ -263,7 +265,7 @@ def body_assign(ctx, case):
             ctx.check(0 <= idx < len(dets) and (ri, idx) not in placed, "line_index_wrong_or_repeated", lambda: "%r; " % line.id + desc())
             placed[(ri, idx)] = line
             check_placed_line(ctx, line, dets[idx], ref, tol, desc)
-            ctx.check(list(line.heights) == list(dets[idx]["heights"]), "heights_changed", desc)
+            ctx.check([float(x) for x in line.heights] == [float(x) for x in dets[idx]["heights"]], "heights_changed", desc)
     n_inside = n_cross = 0
     for li, d in enumerate(dets):
         L = geom.polyline_length(d["baseline"])
@@ -283,7 +285,7 @@ def body_assign(ctx, case):
                 line = placed.get((ri, li))
                 ctx.check(line is not None, "inside_line_not_placed", lambda: "line %d region %d; " % (li, ri) + desc())
                 got = np.asarray(line.baseline, dtype=np.float64)
-                ctx.check(got.shape == d["b"].shape and np.allclose(got, d["b"], atol=tol, rtol=0), "inside_line_baseline_changed",
+                ctx.check(got.shape == d["b"].shape and np.allclose(got, np.asarray(d["b"], dtype=np.float64), atol=tol, rtol=0), "inside_line_baseline_changed",
                           lambda: "line %d region %d got %r want %r; " % (li, ri, got.tolist(), d["b"].tolist()) + desc())
             elif cls == "outside":
                 ctx.check((ri, li) not in placed, "outside_line_placed", lambda: "line %d region %d; " % (li, ri) + desc())
